@@ -30,13 +30,16 @@ def gen_case(ctx, i):
     sigma = float(np.exp(r.uniform(np.log(0.5), np.log(30.0))))
     n_nodes = int(r.integers(2, 7))
     n_an = int(r.integers(0, 5))
+    many = (i % 100 == 37)  # a crowded frame: 33-70 animals (rendered in blocks by some implementations), one or two edges
+    if many:
+        n_an, n_nodes = int(r.integers(33, 71)), int(r.integers(2, 4))
     kind = str(r.choice(["tree", "random", "repeat"]))
     if kind == "tree":
         perm = r.permutation(n_nodes)
         edges = [[int(perm[r.integers(0, k)]), int(perm[k])] for k in range(1, n_nodes)]
         r.shuffle(edges)
     else:
-        n_e = int(r.integers(1, 7))
+        n_e = int(r.integers(1, 3)) if many else int(r.integers(1, 7))
         edges = []
         for _ in range(n_e):
             a, b = r.choice(n_nodes, size=2, replace=False)
@@ -154,6 +157,11 @@ def real_pafs(variant, inst32, H, W, s, sigma, edges):
         if tuple(w_dp.shape) != tuple(w_fn.shape) or not torch.allclose(w_dp, w_fn, atol=1e-6, equal_nan=True):
             raise StreamMismatch(f"first stream item ({H2}x{W2}) differs from the functional call on the same input: {tuple(w_dp.shape)} vs {tuple(w_fn.shape)}")
         out = res[1]["part_affinity_fields"]
+        # the same example objects go through a second datapipe with another sigma: its output must be that pipe's own, not a left-over
+        res2 = list(em.PartAffinityFieldsGenerator([warm, ex], sigma=sigma * 1.5 + 0.25, output_stride=s, edge_inds=e, flatten_channels=flat))
+        f2 = em.generate_pafs(t.clone(), (H, W), sigma=sigma * 1.5 + 0.25, output_stride=s, edge_inds=e, flatten_channels=flat)
+        if len(res2) != 2 or tuple(res2[1]["part_affinity_fields"].shape) != tuple(f2.shape) or not torch.allclose(res2[1]["part_affinity_fields"], f2, atol=1e-6, equal_nan=True):
+            raise StreamMismatch("a second PartAffinityFieldsGenerator (other sigma) over the same example dicts does not return its own fields")
     raw = tuple(out.shape)
     arr = out.detach().numpy().astype(np.float64)
     return arr, raw, flat
